@@ -12,7 +12,8 @@
      of double width / double size characters are not printed (the terminal doubles the anchor);
    * vbi_print_page_region: "rows separated by linefeeds", table mode prints "all characters within the
      source rectangle"; "Graphics characters, DRCS and all characters not representable in the target format
-     will be replaced by spaces".
+     will be replaced by spaces" - what is printed are the page's printable characters (vbi_is_print), every other
+     code (mosaics, line drawing, DRCS, the private Arabic and Turkish codes) is a space.
 
    A page is [rows, cols, u, sz] with u and sz row-major sequences (code, vbi_size value).  Unrepr is the set
    of codes the requested character encoding cannot represent (taken from the C library's iconv by the
@@ -41,8 +42,32 @@ ExportFrom(pg, r, gfx, unrepr, skipCovered) ==
   ELSE ExportRow(pg, r, gfx, unrepr, skipCovered) \o <<LF>> \o ExportFrom(pg, r + 1, gfx, unrepr, skipCovered)
 ExportText(pg, gfx, unrepr, skipCovered) == ExportFrom(pg, 1, gfx, unrepr, skipCovered)
 
+(* With terminal control codes the right parts of wide characters are not printed.  A cell of size OVER_TOP / OVER_BOTTOM is
+   such a right part when its left neighbour is a double width / double size cell (format.h).  Enhancement data can leave a
+   cell of this size without such a neighbour; whether the module prints it is not specified, so both are accepted:
+   ExportAccepted runs over the cells with the set of positions of the delivered text that can have been reached. *)
+WideAnchor(z) == z = 1 \/ z = 3 \/ z = 7
+RightPart(pg, r, c) == Covered(pg.sz[Idx(pg, r, c)]) /\ c > 1 /\ WideAnchor(pg.sz[Idx(pg, r, c - 1)])
+Orphan(pg, r, c) == Covered(pg.sz[Idx(pg, r, c)]) /\ ~RightPart(pg, r, c)
+Adv(got, S, ch) == {j + 1 : j \in {x \in S : x <= Len(got) /\ got[x] = ch}}
+RECURSIVE RowReach(_, _, _, _, _, _, _, _)
+RowReach(pg, r, c, gfx, unrepr, skipCovered, got, S) ==
+  IF c > pg.cols THEN Adv(got, S, LF)
+  ELSE LET ch == In(unrepr, ExportChar(pg.u[Idx(pg, r, c)], gfx))
+           S1 == IF skipCovered /\ RightPart(pg, r, c) THEN S
+                 ELSE IF skipCovered /\ Orphan(pg, r, c) THEN S \cup Adv(got, S, ch)
+                 ELSE Adv(got, S, ch)
+       IN RowReach(pg, r, c + 1, gfx, unrepr, skipCovered, got, S1)
+RECURSIVE PageReach(_, _, _, _, _, _, _)
+PageReach(pg, r, gfx, unrepr, skipCovered, got, S) ==
+  IF r > pg.rows \/ S = {} THEN S
+  ELSE PageReach(pg, r + 1, gfx, unrepr, skipCovered, got, RowReach(pg, r, 1, gfx, unrepr, skipCovered, got, S))
+ExportAccepted(pg, gfx, unrepr, skipCovered, got) == (Len(got) + 1) \in PageReach(pg, 1, gfx, unrepr, skipCovered, got, {1})
+NoOrphans(pg) == \A r \in 1..pg.rows : \A c \in 1..pg.cols : ~Orphan(pg, r, c)
+
 \* ---- vbi_print_page_region, table mode; region = columns col..col+w-1, rows row..row+h-1 (from 0 as in the API)
-TableChar(u, z) == IF Continuation(z) \/ IsGfx(u) \/ IsDrcs(u) THEN Space ELSE u
+\* the page's printable characters; continuation cells, graphics, DRCS and the other private codes become spaces
+TableChar(u, z) == IF Continuation(z) \/ ~IsPrint(u) THEN Space ELSE u
 TableRow(pg, r, col, w, unrepr) ==
   [i \in 1..w |-> In(unrepr, TableChar(pg.u[Idx(pg, r, col + i)], pg.sz[Idx(pg, r, col + i)]))]
 RECURSIVE TableFrom(_, _, _, _, _, _)
@@ -96,6 +121,17 @@ TableRegion == \A rg \in Regions : \A un \in UnreprSets :
                  \A i \in 0..(rg[4] - 1) : \A j \in 1..rg[3] :
                    part[i * (rg[3] + 1) + j] = whole[(rg[2] + i) * (MCols + 1) + rg[1] + j]
 TableChars == \A un \in UnreprSets : LET t == TableText(pg, 0, 0, MCols, MRows, un) IN
-                \A i \in 1..Len(t) : ~IsGfx(t[i]) /\ ~IsDrcs(t[i]) /\ t[i] \notin (un \ {Space})
+                \A i \in 1..Len(t) : IsPrint(t[i]) /\ t[i] \notin (un \ {Space})
+\* the acceptance relation: the specified text is accepted; without orphan continuation cells nothing else is (probed with
+\* every text that differs from it by one deleted, one changed or one inserted character)
+AcceptSound == \A g \in Gfxs : \A un \in UnreprSets : \A k \in BOOLEAN :
+                 LET t == ExportText(pg, g, un, k)
+                     Del(i) == SubSeq(t, 1, i - 1) \o SubSeq(t, i + 1, Len(t))
+                     Chg(i) == [t EXCEPT ![i] = IF t[i] = 66 THEN 67 ELSE 66]
+                     Ins(i) == SubSeq(t, 1, i - 1) \o <<t[i]>> \o SubSeq(t, i, Len(t))
+                 IN /\ ExportAccepted(pg, g, un, k, t)
+                    /\ (~k \/ NoOrphans(pg)) => \A i \in 1..Len(t) : /\ ~ExportAccepted(pg, g, un, k, Del(i))
+                                                                     /\ ~ExportAccepted(pg, g, un, k, Chg(i))
+                                                                     /\ ~ExportAccepted(pg, g, un, k, Ins(i))
 ASSUME ReturnOK == \A n \in 0..5 : \A k \in 0..6 : TableReturn(k, n) \in {0, n} /\ (TableReturn(k, n) = n <=> (k >= n \/ n = 0))
 =============================================================================
